@@ -18,14 +18,19 @@ _WELL_FORMED = ("len(thresholds) >= 2 and not (thresholds[0] is None and thresho
                 "and forall(lambda q: thresholds[q] is not None, 1, len(thresholds) - 1) "
                 "and len(betas) == len(thresholds) - 1")
 
+_MALFORMED = ("forall(lambda q: thresholds[q] is None, 0, len(thresholds)) "
+              "or exists(lambda q: thresholds[q] is None, 1, len(thresholds) - 1) "
+              "or len(betas) != len(thresholds) - 1")
+
 contract(Q + 'piecewise_function', 'C17', nla_uf=True,
          types={'x': 'float', 'thresholds': 'list[float | None]', 'betas': 'list[float]'},
          requires={
-             'well_formed': _WELL_FORMED,
              # thresholds increase (the documented use: consecutive intervals)
              'increasing': "forall(lambda a: forall(lambda b: implies(a < b and thresholds[a] is not None and thresholds[b] is not None, "
                            "typed(thresholds[a], 'float') < typed(thresholds[b], 'float')), 0, len(thresholds)), 0, len(thresholds))",
          },
+         # malformed input is refused, and nothing else is (no precondition on the shape of the lists)
+         raises={'BiogemeError': _MALFORMED},
          ensures={'closed_form': f"result == {SUM.replace('LIM', 'len(betas)')}"},
          hints=[SUM.replace('LIM', 'i + 1')],
          invariants={1: {'clauses': {
